@@ -786,6 +786,9 @@ func (env *Env) call(x *Expr) Val {
 		if x.Args[0].Op != "ident" {
 			efail("defined(name)")
 		}
+		if _, ok := st.lets[x.Args[0].Name]; ok {
+			return boolVal("true")
+		}
 		for fr := env.fr; fr != nil; fr = fr.parent {
 			if c, ok := fr.names[x.Args[0].Name]; ok {
 				// the variable must have been declared on THIS path, not merely on an earlier explored one
